@@ -4,6 +4,8 @@ correspondence: generated schemas (2-4 classes created dynamically, private regi
 class with every cascade setting, self references, related joins declared from one or both sides) x populations
 of <= 6 rows x every victim, run through the real `destroySelf` on in-memory SQLite (cached and cache=False
 connections) and through the Lean model driver (`drv_c12`); two further scenarios go through the same pipeline:
+'conn2' (the classes' default connection is one database, the objects live on an explicit second connection with another
+population: every access with connection=; the default database must be neither consulted nor changed),
 'tx' (file-backed SQLite in a mkdtemp directory: rows loaded and held through the parent connection, the victim destroyed
 through `conn.transaction()` + commit, everything observed on the parent: get(id) of every closure member must raise
 SQLObjectNotFound and the held parent instances must not answer) and 'evolve' (the classes are used, one destroySelf per
@@ -63,6 +65,7 @@ _built = {}
 
 
 _tmpdir = []
+_default_conn = {}
 
 
 def scratch_dir():
@@ -103,8 +106,13 @@ def build(classes, cached, mode='plain', case=None):
     sqlo.setup()
     from sqlobject import SQLObject, ForeignKey
     reg = sqlo.uniq('c12reg')
+    default_conn = None
     if mode == 'tx':
         conn = sqlo.file_conn(os.path.join(scratch_dir(), sqlo.uniq('db') + '.sqlite'), cache=cached)
+    elif mode == 'conn2':
+        # the classes' default connection is another database; `conn` is only ever passed explicitly
+        default_conn = sqlo.mem_conn()
+        conn = sqlo.mem_conn(cache=cached)
     else:
         conn = sqlo.mem_conn(cache=cached)
     decl = classes
@@ -113,17 +121,19 @@ def build(classes, cached, mode='plain', case=None):
     out = []
     tables = set()
     for k, cd in enumerate(decl):
-        d = {'sqlmeta': type('sqlmeta', (), {'registry': reg, 'lazyUpdate': bool(cd.get('lazy'))}), '_connection': conn}
+        d = {'sqlmeta': type('sqlmeta', (), {'registry': reg, 'lazyUpdate': bool(cd.get('lazy'))}),
+             '_connection': default_conn or conn}
         for f, (t, p) in enumerate(cd['fks']):
             d['f%d' % f] = ForeignKey(NAMES[t], cascade=POL[p], default=None)
         for jx, (o, t, own) in enumerate(cd['joins']):
             d['j%d' % jx] = join_def(k, jx, o, t, own)
             tables.add(t)
         out.append(type(NAMES[k], (SQLObject,), d))
-    for cls in out:
-        cls.createTable()
-    for t in sorted(tables):
-        conn.query('CREATE TABLE lt%d (ca INT, cb INT)' % t)
+    for cn in ([default_conn, conn] if default_conn else [conn]):
+        for cls in out:
+            cls.createTable(connection=cn)
+        for t in sorted(tables):
+            cn.query('CREATE TABLE lt%d (ca INT, cb INT)' % t)
     if mode == 'evolve':
         # schema evolution: use the classes (one destroySelf per class, so that anything remembered about the
         # dependency graph is remembered), then add a foreign key / related join at run time
@@ -153,10 +163,14 @@ def build(classes, cached, mode='plain', case=None):
     if len(_built) > 400:
         _built.clear()
     _built[key] = (conn, out, sorted(tables))
+    if default_conn is not None:
+        _default_conn[id(conn)] = default_conn
     return _built[key]
 
 
-def fill(conn, classes, tables, rows, links):
+def fill(conn, classes, tables, rows, links, explicit=False):
+    """explicit: every object is created through `connection=conn` (conn is not the classes' default connection)"""
+    ckw = {'connection': conn} if explicit else {}
     for cls in classes:
         conn.query('DELETE FROM %s' % cls.sqlmeta.table)
     for t in tables:
@@ -164,7 +178,7 @@ def fill(conn, classes, tables, rows, links):
     conn.cache.clear()
     objs = {}
     for c, i, vals in rows:
-        objs[(c, i)] = classes[c](id=i)
+        objs[(c, i)] = classes[c](id=i, **ckw)
     for c, i, vals in rows:
         kw = {'f%dID' % f: v for f, v in enumerate(vals) if v is not None}
         if kw:
@@ -177,8 +191,12 @@ def fill(conn, classes, tables, rows, links):
 
 
 def populate(case):
-    conn, classes, tables = build(case['classes'], case['cache'], case.get('mode', 'plain'), case)
-    objs = fill(conn, classes, tables, case['rows'], case['links'])
+    mode = case.get('mode', 'plain')
+    conn, classes, tables = build(case['classes'], case['cache'], mode, case)
+    if mode == 'conn2':
+        # another population in the database of the default connection
+        fill(_default_conn[id(conn)], classes, tables, case['rows_default'], case['links_default'])
+    objs = fill(conn, classes, tables, case['rows'], case['links'], explicit=(mode == 'conn2'))
     return conn, classes, tables, objs
 
 
@@ -212,6 +230,8 @@ def run_impl(case):
             if mode == 'tx':
                 tx = conn.transaction()
                 victim = classes[vc].get(vi, connection=tx)
+            elif mode == 'conn2':
+                victim = classes[vc].get(vi, connection=conn)
             else:
                 victim = classes[vc].get(vi)
             victim.destroySelf()
@@ -248,7 +268,7 @@ def run_impl(case):
             except Exception as e:
                 reach.append((c, i, 'held instance: ' + sqlo.exc_name(e)))
         try:
-            o = classes[c].get(i)
+            o = classes[c].get(i, connection=conn) if mode == 'conn2' else classes[c].get(i)
         except sqlobject.SQLObjectNotFound:
             continue
         except Exception as e:
@@ -262,6 +282,12 @@ def run_impl(case):
                 seen = 'error:' + sqlo.exc_name(e)
             if seen != rowmap[(c, i)]:
                 stale.append(((c, i), seen, rowmap[(c, i)]))
+    if mode == 'conn2':
+        dc = _default_conn[id(conn)]
+        d_rows, d_links = dump(case, dc, classes, tables)
+        want = (sorted((c, i, tuple(v)) for c, i, v in case['rows_default']), sorted(tuple(l) for l in case['links_default']))
+        if (d_rows, d_links) != want:
+            stale.append(('default connection', (d_rows, d_links), want))
     return outcome, rows, links, reach, stale
 
 
@@ -469,6 +495,11 @@ def gen_cases(ctx):
             c['cache'] = cached
             yield c
             if 'mode' not in c:
+                d = dict(c)
+                d['mode'] = 'conn2'
+                d['rows_default'] = [[cc, i, [None] * len(v)] for cc, i, v in c['rows']]
+                d['links_default'] = []
+                yield d
                 exp = oracle(c)
                 if exp[0] == 'ok' and not exp[4]['cycle']:
                     t = dict(c)
@@ -493,6 +524,13 @@ def gen_cases(ctx):
         if s % 4 == 2:
             for case in gen_evolved(rng, classes, cached):
                 yield case
+        if s % 4 == 3:
+            # the whole scenario on an explicit second connection; the default connection's database holds another
+            # population (same ids where possible, other references), which must be neither consulted nor changed
+            rows_d, links_d = gen_population(rng, classes)
+            for c, i, vals in rows:
+                yield {'cache': cached, 'classes': classes, 'rows': rows, 'links': links, 'victim': [c, i], 'mode': 'conn2',
+                       'rows_default': rows_d, 'links_default': links_d}
 
 
 def gen_evolved(rng, classes, cached):
@@ -525,7 +563,10 @@ def judge(ctx, case, impl):
     outcome, rows, links, reach, stale = impl
     exp, erows, elinks, ereach, info = oracle(case)
     sig = canon(case)
-    if stale:
+    if stale and stale[0][0] == 'default connection':
+        ctx.oracle_fail('C12:conn2-default-database-changed', 'destroySelf of an object of an explicit second connection changed the '
+                        'database of the class\'s default connection: %r, was %r' % (stale[0][1], stale[0][2]), case)
+    elif stale:
         ctx.oracle_fail('C12:stale-instance:' + sig, 'a surviving instance shows %r, its row holds %r' % (stale[0][1], stale[0][2]), case)
     if outcome == 'fuel':
         if info['cycle']:
